@@ -52,7 +52,8 @@ def call_decompose(case, y=None, cols=None, w="same", **over):
                 X = tuple(tuple(r) for r in X)
         else:
             X = np.array(cols[0], dtype=float) if len(cols) == 1 and not over.get("force_2d") else np.array(cols, dtype=float).T
-        df = decompose(np.array(y, dtype=float), X, None if w is None else np.array(w, dtype=float), scoring_function=sf, **kw)
+        ydt = over.get("narrow", case.get("narrow")) or float  # whole numbers held in a narrow integer dtype (counts)
+        df = decompose(np.array(y).astype(ydt), X, None if w is None else np.array(w).astype(ydt), scoring_function=sf, **kw)
     except Exception as e:
         return {"err": exc_class(e), "msg": str(e)[:160]}
     return {"rows": [[float(r[c]) for c in ("miscalibration", "discrimination", "uncertainty", "score")] for r in df.iter_rows(named=True)],
